@@ -410,6 +410,8 @@ def catalogue():
     E["sequence_equal"] = (["comparer"], lambda c: c.source("a").pipe(ops.sequence_equal(c.source("b"), c.cb("comparer", lambda a, b: True))))
     E["sequence_equal_iterable"] = (["comparer"], lambda c: c.source("a").pipe(
         ops.sequence_equal([0, 1, 2, 3, 0, 1], c.cb("comparer", lambda a, b: True))))
+    E["sequence_equal_generator"] = (["comparer"], lambda c: c.source("a").pipe(
+        ops.sequence_equal((v for v in [0, 1, 2, 3, 0, 1]), c.cb("comparer", lambda a, b: True))))
     E["catch_handler"] = (["handler"], lambda c: c.source("a").pipe(ops.catch(c.cb("handler", lambda e, s: c.inner()))))
     E["on_error_resume_next"] = (["factory1", "factory2"], lambda c: rx.on_error_resume_next(
         c.source("a"), c.cb("factory1", lambda e: c.inner()), c.cb("factory2", lambda e: c.inner())))
